@@ -221,6 +221,8 @@ type scen struct {
 	style   string
 	maxConn int
 	seed    int64
+	drvSeed int64 // the driver's -seed and -reqs (replay: wire -seed S -first id -n 1 -reqs R)
+	nreq0   int
 
 	mu      sync.Mutex
 	t0      time.Time
@@ -780,9 +782,9 @@ func runScenario(s *scen, self string) error {
 	var line string
 	select {
 	case line = <-ready:
-	case <-time.After(40 * time.Second):
+	case <-time.After(120 * time.Second):
 		cmd.Process.Kill()
-		return fmt.Errorf("scenario %d: child not ready in 40s: %s", s.id, stderr.String())
+		return fmt.Errorf("scenario %d: child not ready in 120s: %s", s.id, stderr.String())
 	}
 	if !strings.HasPrefix(line, "READY ") {
 		cmd.Process.Kill()
@@ -811,7 +813,7 @@ func runScenario(s *scen, self string) error {
 	init := ev{"op": "Init", "kind": "wire", "scenario": s.id, "name": s.name, "np": s.tor.NumPieces, "plens": plens, "have": heldList,
 		"maxblk": maxBlk, "maxq": s.sc.MaxReqIn, "cb": int(s.sc.CB), "nconn": s.maxConn, "layout": s.tor.Name, "style": s.style,
 		"cachesize": int(s.sc.CacheSize), "ttlms": s.sc.TTLms, "nleech": s.nleech, "rainhave": rd.Have, "unit": s.sc.Unit,
-		"cfg": string(js), "seed": int(s.seed)}
+		"cfg": string(js), "seed": int(s.seed), "drvseed": int(s.drvSeed), "reqs": s.nreq0}
 	s.events = append(s.events, init)
 	// watchdog for the child: a crash ends the scenario
 	var crashOnce sync.Once
@@ -839,10 +841,10 @@ func runScenario(s *scen, self string) error {
 	go func() { wg.Wait(); close(fin) }()
 	select {
 	case <-fin:
-	case <-time.After(120 * time.Second):
+	case <-time.After(300 * time.Second):
 		cmd.Process.Kill()
 		<-childDone
-		return fmt.Errorf("scenario %d (%s): leechers did not finish in 120 s", s.id, s.name)
+		return fmt.Errorf("scenario %d (%s): leechers did not finish in 300 s", s.id, s.name)
 	}
 	crashedBefore := s.crashed.Load()
 	if !crashedBefore {
@@ -877,8 +879,16 @@ func makeScenario(id int, seed int64, nreq int) *scen {
 	nl := len(layouts(unit))
 	sc := SeedCfg{Layout: rng.Intn(nl), Unit: unit, TorSeed: seed*100 + int64(id), CB: cb, CacheSize: 64 << 20, TTLms: 60000, Parallel: 1,
 		MaxReqIn: 250, Unchoked: 3, Optimistic: 1, AFSet: 10}
-	s := &scen{id: id, sc: sc, style: style, nleech: 1, nreq: nreq, maxConn: 48, seed: seed*1000 + int64(id), stats: map[string]int{}}
+	s := &scen{id: id, sc: sc, style: style, nleech: 1, nreq: nreq, maxConn: 48, seed: seed*1000 + int64(id), stats: map[string]int{},
+		drvSeed: seed, nreq0: nreq}
 	tor := buildTorrent(&s.sc)
+	if style == "partial" || style == "choked" {
+		// a partial seed needs pieces to miss, a choked peer needs pieces outside its allowed-fast set
+		for tor.NumPieces < 3 {
+			s.sc.Layout = rng.Intn(nl)
+			tor = buildTorrent(&s.sc)
+		}
+	}
 	switch style {
 	case "mixed":
 		s.sc.CacheSize = []int64{64 << 20, 3 * cb, cb, 16 * cb}[rng.Intn(4)]
@@ -904,6 +914,12 @@ func makeScenario(id int, seed int64, nreq int) *scen {
 		s.sc.ReadDelayUs = 150 + rng.Intn(350) // requests wait in the writer's queue when the choke comes
 		s.sc.TickMs = 8 + rng.Intn(25)
 		s.nreq = nreq * 3
+		if rng.Intn(3) == 0 {
+			// a slow uplink keeps accepted requests waiting in the writer's queue when the choke comes (the token
+			// bucket starts full: one second's worth goes out at once, then every piece message waits for its tokens)
+			s.sc.UploadKBps = []int64{64, 128, 256}[rng.Intn(3)]
+			s.sc.MaxReqIn = 6 + rng.Intn(6)
+		}
 	case "flood":
 		s.sc.MaxReqIn = 1 + rng.Intn(6)
 		s.sc.ReadDelayUs = []int{0, 100, 500}[rng.Intn(3)]
